@@ -6,12 +6,12 @@ cd $wt || exit 9
 git checkout -- . ; 
 git apply $sd/patch.diff || { echo "CONFIRM patch-does-not-apply"; exit 1; }
 find . -name "*.asm" -exec touch {} +
-make -j16 >/dev/null 2>&1 || { echo "CONFIRM build-fails"; git checkout -- .; exit 1; }
-res=$(make check -j16 2>&1 | grep -E "^# (PASS|FAIL|ERROR)" | tr -d ' \n')
+make -j6 >/dev/null 2>&1 || { echo "CONFIRM build-fails"; git checkout -- .; exit 1; }
+res=$(make check -j6 2>&1 | grep -E "^# (PASS|FAIL|ERROR)" | tr -d ' \n')
 git checkout -- programs/igzip.1 2>/dev/null
 (cd $sd && timeout 600 bash ./demo.sh > demo.with.out 2>&1); rcw=$?
 git checkout -- .; find . -name "*.asm" -exec touch {} +
-make -j16 >/dev/null 2>&1
+make -j6 >/dev/null 2>&1
 (cd $sd && timeout 600 bash ./demo.sh > demo.without.out 2>&1); rco=$?
 echo "CONFIRM make_check=$res demo_with_patch_rc=$rcw demo_without_patch_rc=$rco"
 if [[ "$res" == "#PASS:16#FAIL:0#ERROR:0" && $rcw -ne 0 && $rco -eq 0 ]]; then echo "CONFIRM ok"; exit 0; else echo "CONFIRM rejected"; exit 1; fi
